@@ -415,9 +415,4 @@ def run(ctx):
     return g.obligations
 
 
-ASSUMPTIONS = ["A-antlr-tree: the parser accepts exactly the ATN's language; a child context is attached to its parent when the sub-rule is entered",
-               "A-antlr-predict: a rule reached through a decision is entered only if the lookahead agrees with it up to the point where the "
-               "alternatives diverge",
-               "A-antlr-error: errors are reported at the parser state set by the last `self.state = n`, with the innermost open rule's context; "
-               "messages render expected-token sets as DefaultErrorStrategy does",
-               "A-antlr-lexer: the runtime lexer is maximal munch over the ATN, first rule wins ties, skip drops the token"]
+ASSUMPTIONS = ["A-antlr-tree", "A-antlr-predict", "A-antlr-error", "A-antlr-lexer"]
